@@ -392,7 +392,8 @@ def check_c09(exe, tier, seed, verdict):
         for t, e in zip(btexts, gets):
             if t == "_none_":
                 continue       # the implementation's sentinel text: outside every universe
-            events.append({"e": "bool", "text": codes(t), "rc": e["rc"], "v": e["out"] == 1})
+            # (the driver's result variable holds the byte 2 before the call: a success that leaves it there delivered nothing)
+            events.append({"e": "bool", "text": codes(t), "rc": e["rc"], "v": e["out"] == 1, "assigned": e["out"] in (0, 1)})
     maxlen = 3 if tier == "quick" else 4
     pl = core.build("plain")
     # split the sweep by alphabet? the driver enumerates everything; 29 symbols: 29^3 = 24k (quick), 29^4 = 707k (thorough)
